@@ -247,6 +247,11 @@ def ref_partial_sigs(pm, setup_like=None):
                 amount, spk = o["amount"], o["spk"]
         except Exception:
             pass
+        if spk is None and not wu and not nw and setup_like is not None:
+            # the message documents the input by no UTXO record at all: the spent output is the one the ledger knows for this outpoint
+            f_ = setup_like.funding.get(tx["ins"][idx]["txid"])
+            if f_ is not None and tx["ins"][idx]["vout"] < len(f_["outs"]):
+                amount, spk = f_["outs"][tx["ins"][idx]["vout"]]["amount"], f_["outs"][tx["ins"][idx]["vout"]]["spk"]
         res = []
         for pk, sig in recs:
             ok = None
@@ -620,6 +625,18 @@ class Ceremony:
                     tr.probe(f"corrupt_sig_slot_{'first' if kk == min(k for i2, k in slots if i2 == ii) else 'later'}_of_{sum(1 for i2, k in slots if i2 == ii)}")
             except Exception:
                 pass
+        if st.get("strip_utxo"):
+            # the UTXO records are missing from the message (an incomplete export / a stripped copy): what it says about signatures
+            # can then only be checked against the ledger
+            try:
+                pmx = psbtmap.parse(raw)
+                for ii, m_ in enumerate(pmx["inputs"]):
+                    pmx["inputs"][ii] = [kv for kv in m_ if kv[0][:1] not in (b"\x00", b"\x01")]
+                raw = psbtmap.serialize(pmx)
+                clean = False
+                tr.fault("strip_utxo")
+            except Exception:
+                pass
         if st.get("amount_lie"):
             # the message (possibly carrying partial signatures that were already validated elsewhere in this process) is altered only in
             # data the txid does not commit to: the amount stated by every witness-UTXO record
@@ -672,7 +689,7 @@ class Ceremony:
         except Exception:
             pm = None
         if pm is not None:
-            sigs = ref_partial_sigs(pm)
+            sigs = ref_partial_sigs(pm, self.setup)
             bad = [(i, pk) for i, lst in enumerate(sigs) for (pk, sg, ok) in lst if ok is False]
             tr.oracle("Q5")
             if bad and p is not None:
@@ -688,7 +705,7 @@ class Ceremony:
             dst.tainted = True
             src_node = self.nodes.get(st.get("src"))
             kinds = set(src_node.taint_kinds) if src_node is not None else set()
-            for key in ("crosstalk", "tamper", "corrupt_sig", "amount_lie", "corrupt"):
+            for key in ("crosstalk", "tamper", "corrupt_sig", "amount_lie", "corrupt", "strip_utxo"):
                 if st.get(key):
                     kinds.add(key)
             if st.get("byz"):
@@ -1378,7 +1395,7 @@ def execute(plan, prop, trace):
         fail("C10", "Q7", "fault_free_ceremony_incomplete", f"fault-free {cer.setup.kind} {cer.setup.m}-of-{cer.setup.n} ceremony over schedule '{plan.get('topology')}' did not produce a final transaction: {outs}")
     s = cer.setup
     return {"wallet": f"{s.kind} {s.m}-of-{s.n}", "inputs": len(s.inputs), "outputs": len(s.outputs), "change": s.change is not None, "topology": plan.get("topology"), "creator": plan.get("creator"),
-            "steps": [(x.get("src", x.get("node", "")) + ">" + x.get("dst", "") if x["op"] == "send" else x["op"]) + "".join("+" + k for k in ("dup", "stale", "corrupt", "corrupt_sig", "crosstalk", "byz", "tamper", "amount_lie") if x.get(k)) for x in plan["steps"]], "finalize": outs}
+            "steps": [(x.get("src", x.get("node", "")) + ">" + x.get("dst", "") if x["op"] == "send" else x["op"]) + "".join("+" + k for k in ("dup", "stale", "corrupt", "corrupt_sig", "crosstalk", "byz", "tamper", "amount_lie", "strip_utxo") if x.get(k)) for x in plan["steps"]], "finalize": outs}
 
 
 # ------------------------------------------------------------------------------------------------ generation
@@ -1505,6 +1522,8 @@ def generate(ch, tier, prop):
                     st["corrupt_sig"] = {"which": ch.randrange(0, 8), "bit": ch.randrange(0, 600), "in_key": ch.chance(0.2)}
                     if ch.chance(0.25):
                         st["corrupt_sig"]["retag"] = ch.randrange(8)
+            if "corrupt" in kinds_f and st["src"] != "C" and ch.chance(p * 0.7):
+                st["strip_utxo"] = True
             if "corrupt" in kinds_f and st["src"] != "C" and ch.chance(p):
                 st["amount_lie"] = ch.choice([1, -1, 1000, -1000, 2**32, ch.randrange(1, 10**6)])
             if "crosstalk" in kinds_f and ch.chance(p * 0.5):
@@ -1643,6 +1662,16 @@ def enumerate_plans(tier, prop, seed):
                     plan["steps"] = steps + [{"op": "finalize"}]
                     plan["enum"] = "corrupt-sig-slots"
                     yield plan
+    # replies without UTXO records whose partial signature was corrupted: every wallet kind
+    for kind, m, n in (("p2pkh", 1, 1), ("p2wpkh", 1, 1), ("p2sh_p2wpkh", 1, 1), ("p2sh", 2, 2), ("p2wsh", 2, 2), ("p2sh_p2wsh", 2, 2)):
+        plan = base(kind, m, n)
+        plan["creator"] = {"segwit_flag": False, "xpubs": False, "unknown": False, "helper": False}
+        plan["sign_method"] = "keys"
+        plan["encoding"] = "raw"
+        plan["topology"] = "star"
+        plan["steps"] = [{"op": "send", "src": "C", "dst": f"S{j}"} for j in range(n)] + [{"op": "send", "src": "S0", "dst": "C", "strip_utxo": True, "corrupt_sig": {"which": 0, "bit": 77, "in_key": False}}] + [{"op": "send", "src": f"S{j}", "dst": "C"} for j in range(n)] + [{"op": "finalize"}]
+        plan["enum"] = "stripped-bogus-signature"
+        yield plan
     # re-tagged partial signatures (hash-type byte changed in flight): every wallet kind x every replacement type
     for kind, m, n in (("p2pkh", 1, 1), ("p2wpkh", 1, 1), ("p2sh_p2wpkh", 1, 1), ("p2sh", 1, 2), ("p2wsh", 1, 2), ("p2sh_p2wsh", 1, 2)):
         for rt in (range(8) if tier == "thorough" else (0, 3, 5)):
@@ -1739,7 +1768,7 @@ def enumerate_plans(tier, prop, seed):
 
 def shrink(plan):
     for i, st in enumerate(plan["steps"]):
-        for key in ("dup", "stale", "corrupt", "corrupt_sig", "crosstalk", "byz", "amount_lie"):
+        for key in ("dup", "stale", "corrupt", "corrupt_sig", "crosstalk", "byz", "amount_lie", "strip_utxo"):
             if st.get(key):
                 p = dict(plan, steps=[dict(x) for x in plan["steps"]])
                 del p["steps"][i][key]
